@@ -102,7 +102,9 @@ PROPS = {
             "trusted_extra": ["serde 1.x / serde_json 1.x are exercised, not modelled"]},
     "C17": {"runs": lambda tier: [run("subtags", ops=["lang_raw", "script_raw", "region_raw", "variant_raw"]),
                                   run("subtags", ops=["lang_raw", "script_raw", "region_raw", "variant_raw"], profile="debug"), run("langid", ops=["li_from_parts", "li_into_parts"]),
-                                  run("locale", ops=["loc_into_parts", "loc_built"], features=["likely"])], "rule": LOCALE_RULE},
+                                  run("locale", ops=["loc_into_parts", "loc_built"], features=["likely"]),
+                                  dict(run("locale", ops=["loc_hist"], features=["likely"]), only_impl_contains=["LAWFAIL from_parts"])],
+            "rule": LOCALE_RULE + " || histories: after every step from_parts(into_parts(value)) must give the value back (only that law counts here)"},
 
     "C06": {
         "runs": simple("likely", ops=["maximize", "li_maximize", "par_maximize", "seq_maximize"], features=["likely"]),
